@@ -152,6 +152,19 @@ CHECKS = {
         "(whitespace collapse, trailing semicolons).",
         "DESIGN.md section 5 C05",
     ),
+    "C04": (
+        "vmc/c04.py (E1 over script shapes; compositional reference oracle with session knowledge)",
+        "exploration",
+        "deviation-bounded exhaustive enumeration of 2-4 statement scripts (chain shape x producer / consumption pattern x statement kind x metadata); composition of per-statement reference dataflows as oracle",
+        "Every script within 3 (quick) / 4 (thorough) deviations of a two-statement line over chain shape (line of 2/3/4, fan-in, fan-out, diamond) x producer "
+        "pattern (5) x consumption pattern per edge (8: all, subset, renamed, *, expression, unqualified / qualified / * over a join with a second table) x producer "
+        "kind (INSERT, CTAS, CREATE VIEW) x metadata (none, provider knowing the ultimate sources, provider non-empty but irrelevant) is analysed; end-to-end pairs and "
+        "the table-level hops of every path must equal the relational composition of the per-statement reference dataflows, statement k evaluated with the knowledge "
+        "K_k = provider + columns of tables written by statements < k.",
+        "Trusted: refsem.columns and the K_k rule (attribution uses K_k always, * expansion only with a provider in use - DESIGN.md C04); each table written once. "
+        "Known findings matched exactly from pins/C04.json.",
+        "DESIGN.md section 5 C04",
+    ),
 }
 
 NOT_YET = "check not built yet in this revision (planned in DESIGN.md section 5/11); not claimed"
